@@ -1,5 +1,5 @@
 SPECIFICATION Spec
-CONSTANTS NInit = 3 MaxAdd = 3
+CONSTANTS NInit = 3 MaxAdd = 3 NClients = 2 MaxCancel = 2
 INVARIANT NeverEarly
 PROPERTY EventuallyDone
 CHECK_DEADLOCK FALSE
